@@ -3,7 +3,7 @@ import random, collections
 from common import *
 
 ID = "C04"
-THEOREM_FILES = ["Summer.Props.C04", "Summer.Props.C04Source", "Summer.Props.C13Source", "Summer.Props.C01Source", "Summer.Props.C17Source", "Summer.Props.C17Glue", "Summer.Props.C04Weights", "Summer.Props.C17Strat"]
+THEOREM_FILES = ["Summer.Props.C04", "Summer.Props.C04Source", "Summer.Props.C13Source", "Summer.Props.C01Source", "Summer.Props.C17Source", "Summer.Props.C17Glue", "Summer.Props.C04Weights", "Summer.Props.C17Strat", "Summer.Props.C17Reach"]
 TASK = "task"
 RULE = ("programs with all flow kinds, 1-3 stratifications (plain / age / strain, full / partial), several adjustment declarations per flow "
         "with overlapping source/dest strata filters, Multiply / bare number / Overwrite / None, parameters and time functions, flows added "
